@@ -1864,7 +1864,7 @@ static void vi(void)
 				vi_drawmsg();
 		}
 		term_pos(xrow - xtop, vi_pos(lbuf_get(xb, xrow),
-				ren_cursor(lbuf_get(xb, xrow), xcol)));
+				ren_cursor(lbuf_get(xb, xrow), vi_off2col(xb, xrow, xoff))));
 		term_commit();
 		lbuf_modified(xb);
 	}
